@@ -158,11 +158,75 @@ pub fn pool(seed: u64) -> &'static Vec<PoolEntry> {
     P.get_or_init(|| build_pool(corpus(seed)))
 }
 
+/// a small set of messages used by C01/C09 as a one-step builder history before the message under test:
+/// refused at the first step, refused late, and the longest accepted frames (indexes into the pool)
+pub fn disturbers(seed: u64) -> &'static Vec<usize> {
+    static D: OnceLock<Vec<usize>> = OnceLock::new();
+    D.get_or_init(|| {
+        let p = pool(seed);
+        let mut out: Vec<usize> = Vec::new();
+        let mut take = |pred: &dyn Fn(&PoolEntry) -> bool, n: usize, out: &mut Vec<usize>| {
+            let mut k = 0;
+            for (i, e) in p.iter().enumerate() {
+                if pred(e) && !out.contains(&i) {
+                    out.push(i);
+                    k += 1;
+                    if k >= n {
+                        break;
+                    }
+                }
+            }
+        };
+        take(&|e| e.label == "wireless", 3, &mut out);
+        take(&|e| e.label.contains("fails-late"), 12, &mut out);
+        take(&|e| e.label.contains("msm-bad-first-satellite"), 4, &mut out);
+        take(&|e| e.label.contains("msm-duplicate-cell"), 6, &mut out);
+        take(&|e| e.label.contains("128-chars"), 1, &mut out);
+        let mut by_len: Vec<usize> = (0..p.len()).filter(|i| p[*i].fresh_len.is_some()).collect();
+        by_len.sort_by_key(|i| std::cmp::Reverse(p[*i].fresh_len.unwrap_or(0)));
+        for i in by_len.into_iter().take(16) {
+            if !out.contains(&i) {
+                out.push(i);
+            }
+        }
+        out
+    })
+}
+
 /// history oracle: one builder reused for every step must behave like a fresh builder at every step
+/// one step of a builder history
+pub enum StepRef<'a> {
+    Build(&'a Message),
+    /// the crate's own `build_generated_message` (feature test_gen) used on the same builder: (message number, seed)
+    Generated(u16, u64),
+}
+
 pub fn oracle(msgs: &[&Message]) -> Result<(), (String, String)> {
+    let steps: Vec<StepRef> = msgs.iter().map(|m| StepRef::Build(m)).collect();
+    oracle_steps(&steps)
+}
+
+pub fn oracle_steps(msgs: &[StepRef]) -> Result<(), (String, String)> {
     let r = catch(|| -> Result<(), (String, String)> {
         let mut reused = MessageBuilder::new();
-        for (i, m) in msgs.iter().enumerate() {
+        for (i, st) in msgs.iter().enumerate() {
+            let m = match st {
+                StepRef::Build(m) => *m,
+                StepRef::Generated(number, seed) => {
+                    // only disturbs the builder's state; its own outcome (even a panic inside the generator) is not judged
+                    let mut r1 = crate::rng::Rng::new(*seed);
+                    let (s1, s2, s3) = (r1.next_u64(), r1.next_u64(), r1.next_u64());
+                    let _ = std::panic::catch_unwind(std::panic::AssertUnwindSafe(|| {
+                        let mut vg = rtcm_rs::val_gen::ValGen::new(
+                            crate::rng::RandAdapter { rng: crate::rng::Rng::new(s1), max_per_1024: 8 },
+                            crate::rng::RandAdapter { rng: crate::rng::Rng::new(s2), max_per_1024: 8 },
+                            crate::rng::RandAdapter { rng: crate::rng::Rng::new(s3), max_per_1024: 0 },
+                        );
+                        let _ = reused.build_generated_message(&mut vg, *number).map(|f| f.len());
+                    }));
+                    continue;
+                }
+            };
             let a: Result<Vec<u8>, String> = reused.build_message(m).map(|f| f.to_vec()).map_err(|e| format!("{:?}", e));
             let b = fresh(m);
             match (&a, &b) {
@@ -198,8 +262,18 @@ pub fn oracle(msgs: &[&Message]) -> Result<(), (String, String)> {
     }
 }
 
+/// history entry -> step: one in eight entries is a call of the crate's own generator on the same builder
+fn step_of<'a>(pool: &'a [PoolEntry], np: usize, i: u16) -> StepRef<'a> {
+    if i % 8 == 7 {
+        let row = &crate::registry::MSG_TABLE[(i as usize / 8) % crate::registry::MSG_TABLE.len()];
+        StepRef::Generated(row.number, i as u64 * 7919)
+    } else {
+        StepRef::Build(&pool[(i as usize * np) >> 16].msg)
+    }
+}
+
 pub fn run(ctx: &Ctx, replay: Option<&J>) -> CheckResult {
-    let rule = "proptest histories: 0..12 build calls + a target, drawn from a pool holding every supported type (Default, decoded golden zero/ones/random vectors, generated and \
+    let rule = "proptest histories: 0..12 calls (build_message on pool messages, one in eight a build_generated_message call of the test_gen feature on the same builder) + a target, drawn from a pool holding every supported type (Default, decoded golden zero/ones/random vectors, generated and \
         synthesised messages), each list filled to capacity (maximum-length frames incl. 64-cell MSM), messages refused at the first step (Empty/Corrupt/MsgNotSupported, \
         MSM with satellite 0), and messages refused late (last element of a full list out of range, MSM duplicate cell, 1029 with 128 characters). oracle: at every \
         step the reused builder returns Ok exactly when a fresh MessageBuilder does and then identical bytes. non-trivial = a longer successful frame or a refused \
@@ -210,9 +284,26 @@ pub fn run(ctx: &Ctx, replay: Option<&J>) -> CheckResult {
         let mut ev = Evidence::new();
         ev.eval();
         let mut vs = Vec::new();
-        let msgs: Vec<Message> = c["history"].as_array().map(|a| a.iter().filter_map(Value::from_json).filter_map(|t| value_to_message(&t).ok()).collect()).unwrap_or_default();
-        let refs: Vec<&Message> = msgs.iter().collect();
-        if let Err((sig, msg)) = oracle(&refs) {
+        enum Owned {
+            M(Message),
+            G(u16, u64),
+        }
+        let owned: Vec<Owned> = c["history"]
+            .as_array()
+            .map(|a| {
+                a.iter()
+                    .filter_map(|j| {
+                        if j["t"] == "generated" {
+                            Some(Owned::G(j["number"].as_u64().unwrap_or(0) as u16, j["seed"].as_u64().unwrap_or(0)))
+                        } else {
+                            Value::from_json(j).and_then(|t| value_to_message(&t).ok()).map(Owned::M)
+                        }
+                    })
+                    .collect()
+            })
+            .unwrap_or_default();
+        let refs: Vec<StepRef> = owned.iter().map(|o| match o { Owned::M(m) => StepRef::Build(m), Owned::G(n, s) => StepRef::Generated(*n, *s) }).collect();
+        if let Err((sig, msg)) = oracle_steps(&refs) {
             vs.push(Violation { property: "C12".into(), signature: sig, message: msg, case: c.clone() });
         }
         return CheckResult { evidence: ev, rule, assumptions, violations: vs };
@@ -227,14 +318,17 @@ pub fn run(ctx: &Ctx, replay: Option<&J>) -> CheckResult {
         cases,
         || (prop::collection::vec(any::<u16>(), 0..12), any::<u16>()),
         |(hist, target): &(Vec<u16>, u16), ev| {
-            let mut msgs: Vec<&Message> = hist.iter().map(|i| &pool[idx(*i)].msg).collect();
+            let mut msgs: Vec<StepRef> = hist.iter().map(|i| step_of(pool, np, *i)).collect();
             let t = &pool[idx(*target)];
-            msgs.push(&t.msg);
-            let r = oracle(&msgs);
+            msgs.push(StepRef::Build(&t.msg));
+            let r = oracle_steps(&msgs);
             if let (Ok(()), Some(ev)) = (&r, ev) {
                 let tl = t.fresh_len.unwrap_or(0);
-                let longer_before = hist.iter().any(|i| pool[idx(*i)].fresh_len.map(|l| l > tl).unwrap_or(false));
-                let failed_before = hist.iter().any(|i| pool[idx(*i)].fresh_len.is_none());
+                let longer_before = hist.iter().filter(|i| **i % 8 != 7).any(|i| pool[idx(*i)].fresh_len.map(|l| l > tl).unwrap_or(false));
+                let failed_before = hist.iter().filter(|i| **i % 8 != 7).any(|i| pool[idx(*i)].fresh_len.is_none());
+                if hist.iter().any(|i| *i % 8 == 7) {
+                    ev.class("history/has-build_generated_message-call");
+                }
                 if t.fresh_len.is_some() && (longer_before || failed_before) {
                     let mut key: Vec<u64> = hist.iter().map(|i| idx(*i) as u64).collect();
                     key.push(idx(*target) as u64);
@@ -249,7 +343,7 @@ pub fn run(ctx: &Ctx, replay: Option<&J>) -> CheckResult {
                         ev.class("history/target-with-zero-tail-bit-after-longer-frame");
                     }
                     if ev.want_sample() && hist.len() >= 3 {
-                        let mut labels: Vec<&str> = hist.iter().map(|i| pool[idx(*i)].label.as_str()).collect();
+                        let mut labels: Vec<&str> = hist.iter().map(|i| if *i % 8 == 7 { "build_generated_message" } else { pool[idx(*i)].label.as_str() }).collect();
                         labels.push(t.label.as_str());
                         ev.sample(json!({"history":labels,"target_frame_len":tl}));
                     }
@@ -260,9 +354,15 @@ pub fn run(ctx: &Ctx, replay: Option<&J>) -> CheckResult {
             r
         },
         |(hist, target)| {
-            let mut trees: Vec<J> = hist.iter().map(|i| pool[idx(*i)].tree.to_json()).collect();
+            let mut trees: Vec<J> = hist
+                .iter()
+                .map(|i| match step_of(pool, np, *i) {
+                    StepRef::Generated(n, sd) => json!({"t":"generated","number":n,"seed":sd}),
+                    StepRef::Build(_) => pool[idx(*i)].tree.to_json(),
+                })
+                .collect();
             trees.push(pool[idx(*target)].tree.to_json());
-            let mut labels: Vec<&str> = hist.iter().map(|i| pool[idx(*i)].label.as_str()).collect();
+            let mut labels: Vec<&str> = hist.iter().map(|i| if *i % 8 == 7 { "build_generated_message" } else { pool[idx(*i)].label.as_str() }).collect();
             labels.push(pool[idx(*target)].label.as_str());
             json!({"kind":"history","labels":labels,"history":trees})
         },
